@@ -16,8 +16,12 @@ META = {
                  "transition system interpreted from that data; theorems for every schedule by kernel-checked exhaustive "
                  "exploration of the finite product with the monitor automaton (closedness certificate, vm_compute); "
                  "differential run of caller scripts (real timer vs set of all model outcomes) and GOMAXPROCS 1..16 stress "
-                 "of the real timer judged by the Coq monitors",
-    "level": "Part (b), full on the model: for EVERY interleaving of start/cancel/observe/fire/ctx-cancel with every statement of "
+                 "of the real timer judged by the Coq monitors; the timeout strategy (timeoutstrategy.go) is translated to Gallina with "
+                 "int64 wrap-around on every run, theorems by lia, generated vs real methods on boundary-biased inputs",
+    "level": "Durations (Properties/C12Timeouts.v, Gen/Timeouts.v regenerated from tm/tmengine/timeoutstrategy.go): each LinearTimeoutStrategy "
+             "method is exactly field-or-default base + Duration(round) * increment in int64 arithmetic and cannot panic; with the default fields, "
+             "for EVERY uint32 round, the four durations are the exact positive linear functions (no wrap); any configuration whose largest duration "
+             "fits int64 is positive and strictly increasing in the round (the guard is shown necessary). Part (b), full on the model: for EVERY interleaving of start/cancel/observe/fire/ctx-cancel with every statement of "
              "the timer goroutine as extracted from roundtimer.go - no panic when each start follows a returned cancel or an "
              "observed elapse, the request is always answered, a timer fires at most once, and no elapse after cancel returned. "
              "Part (a): on the round state machine model (Model/StateMachine.v, tied to the real tmstate.StateMachine by per-event "
@@ -499,7 +503,106 @@ def sub_state_machine(c, X):
     c12_sm.subchecks(c)
 
 
-SUBCHECKS = [sub_extract_and_prove, sub_build_harness, sub_scripts, sub_stress, sub_verdict_b, sub_state_machine]
+def sub_timeouts(c, X):
+    """The durations the timer is armed with: tm/tmengine/timeoutstrategy.go is regenerated as Gen/Timeouts.v (int64 wrap-around),
+    Properties/C12Timeouts.v is rebuilt against it, and the generated functions are run against the real methods."""
+    tok, tlog = c.translate(only=["Gen/Timeouts.v"])
+    if not tok:
+        c.obligations.append("translate Gen/Timeouts.v")
+        c.fail_obligation("translate Gen/Timeouts.v (timeoutstrategy.go left the translated subset)", tlog[-800:])
+        return
+    proved = c.prove("C12Timeouts")
+    binary, blog = c.go_build("c12to")
+    if binary is None:
+        c.fail_obligation("harness-build-timeouts", blog[-1500:])
+        return
+    rng = vcheck.SplitMix64(c.seed ^ 0xC12707)
+    I63 = (1 << 63) - 1
+    edge_f = [0, 1, -1, 2, 500_000_000, 5_000_000_000, 2_000_000_000, 1 << 31, (1 << 31) - 1, (1 << 32), (1 << 32) + 1, 1 << 33,
+              I63, -I63 - 1, I63 // 2, (I63 // 4294967295), (I63 // 4294967295) + 1, 1 << 62, -(1 << 62), 1_000_000, 999_999_999]
+    edge_r = [0, 1, 2, 3, 7, 1000, 65535, 65536, (1 << 31) - 1, 1 << 31, (1 << 32) - 2, (1 << 32) - 1]
+    cases = [[0] * 8 + [r] for r in edge_r]
+    n = 600 if c.tier == "quick" else 20000
+    while len(cases) < n:
+        f = []
+        for _ in range(8):
+            k = rng.below(10)
+            if k < 3:
+                f.append(0)
+            elif k < 7:
+                f.append(rng.choice(edge_f))
+            elif k < 9:
+                f.append(rng.below(20_000_000_000))
+            else:
+                f.append(rng.below(1 << 64) - (1 << 63))
+        r = rng.choice(edge_r) if rng.chance(1, 2) else rng.below(1 << 32)
+        cases.append(f + [r])
+    rc, out, err = c.run_bin(binary, stdin="\n".join(" ".join(str(x) for x in cs) for cs in cases) + "\n")
+    lines = [ln for ln in out.split("\n") if ln.strip()]
+    if rc != 0 or len(lines) != len(cases) or any(ln.startswith("X") for ln in lines):
+        c.fail_obligation("harness-run-timeouts", "rc=%d, %d of %d lines; stderr %s" % (rc, len(lines), len(cases), err[-500:]))
+        return
+    obs = [[int(x) for x in ln.split()] for ln in lines]
+
+    def z(x):
+        return "(%d)" % x
+    body = ("From Coq Require Import List NArith ZArith String Bool.\nFrom GV Require Import Base.Ints Base.SInts Gen.Timeouts.\n"
+            "Import ListNotations. Local Open Scope Z_scope.\n"
+            "Definition zeqb4 (a : res Z * res Z * res Z * res Z) (b : Z * Z * Z * Z) : bool :=\n"
+            "  match a, b with (Ok p, Ok q, Ok u, Ok v), (p', q', u', v') => Z.eqb p p' && Z.eqb q q' && Z.eqb u u' && Z.eqb v v' | _, _ => false end.\n"
+            "Definition run1 (c : lts * N) := (proposal_timeout (fst c) (snd c), prevote_delay_timeout (fst c) (snd c), "
+            "precommit_delay_timeout (fst c) (snd c), commit_wait_timeout (fst c) (snd c)).\n"
+            "Definition cases : list ((lts * N) * (Z * Z * Z * Z)) := [\n%s\n].\n"
+            "Fixpoint number {A} (i : N) (l : list A) : list (N * A) := match l with [] => [] | x :: t => (i, x) :: number (i + 1)%%N t end.\n"
+            "Definition mismatches := Eval vm_compute in map (fun e => (fst e, run1 (fst (snd e)))) "
+            "(filter (fun e => negb (zeqb4 (run1 (fst (snd e))) (snd (snd e)))) (number 0%%N cases)).\n"
+            "Definition nonpositive := Eval vm_compute in List.length (filter (fun e => match proposal_timeout (fst (fst e)) (snd (fst e)) with Ok d => d <=? 0 | _ => true end) cases).\n"
+            "Print mismatches. Print nonpositive.\n"
+            % ";\n".join("((mk_lts %s, %d%%N), (%s, %s, %s, %s))" % (" ".join(z(x) for x in cs[:8]), cs[8], z(o[0]), z(o[1]), z(o[2]), z(o[3]))
+                          for cs, o in zip(cases, obs)))
+    ok, cout = c.coq_eval("c12_timeouts_cases", body)
+    if not ok:
+        c.fail_obligation("cases-eval-timeouts", cout[-2000:])
+        return
+    m = re.search(r"mismatches\s*=\s*(.*?)\n\s*:\s*list", cout, flags=re.S)
+    if not m:
+        c.fail_obligation("cases-eval-timeouts-parse", cout[-1500:])
+        return
+    bad = [int(i) for i in re.findall(r"\((\d+)%N,", m.group(1))]
+    # the property side (what the type's documentation promises and the state machine relies on): with the default fields every
+    # duration is positive and grows linearly with the round.  The exact default constants are pinned by the theorem
+    # C12_default_timeouts_exact only (a retuned default breaks that proof obligation, it is not reported as a failing input).
+    spec_bad = None
+    dflt = {cs[8]: o for cs, o in zip(cases, obs) if all(x == 0 for x in cs[:8])}
+    if 0 in dflt and 1 in dflt:
+        d0, d1 = dflt[0], dflt[1]
+        for ci, (cs, o) in enumerate(zip(cases, obs)):
+            if all(x == 0 for x in cs[:8]):
+                want = [d0[k] + cs[8] * (d1[k] - d0[k]) for k in range(4)]
+                if o != want or min(o) <= 0 or min(d1[k] - d0[k] for k in range(4)) <= 0:
+                    spec_bad = (ci, want)
+                    break
+    if spec_bad:
+        ci, want = spec_bad
+        c.report("timeouts-default-not-linear", "LinearTimeoutStrategy with default fields, round %d: the real methods return %s ns; "
+                 "positive durations growing linearly from rounds 0 and 1 would give %s ns (the step timer is armed with a non-positive or "
+                 "non-linear duration)" % (cases[ci][8], obs[ci], want),
+                 {"timeouts_case": cases[ci], "observed": obs[ci], "expected": want, "how": "echo '%s' | bin/h_c12to" % " ".join(str(x) for x in cases[ci])})
+    elif bad:
+        ci = bad[0]
+        c.fail_obligation("correspondence Gen/Timeouts.v vs tm/tmengine/timeoutstrategy.go", "generated and real functions differ on %d of %d "
+                          "inputs; first: fields %s round %d: real %s" % (len(bad), len(cases), cases[ci][:8], cases[ci][8], obs[ci]),
+                          {"timeouts_case": cases[ci], "observed": obs[ci]})
+    elif not proved:
+        b = getattr(c, "broken", {"file": "?", "log": ""})
+        c.fail_obligation("Properties/C12Timeouts.v (%s)" % b["file"], b["log"], {"searched_cases": len(cases)})
+    mnp = re.search(r"nonpositive\s*=\s*(\d+)", cout)
+    c.coverage.update({"timeout_cases": len(cases), "timeout_cases_with_default_fields": sum(1 for cs in cases if all(x == 0 for x in cs[:8])),
+                       "timeout_cases_nonpositive_result": int(mnp.group(1)) if mnp else None,
+                       "timeout_correspondence_disagreements": len(bad)})
+
+
+SUBCHECKS = [sub_extract_and_prove, sub_build_harness, sub_scripts, sub_stress, sub_verdict_b, sub_timeouts, sub_state_machine]
 
 
 def main(argv):
